@@ -197,6 +197,85 @@ example :
        [Ev.lp5 0])).map (fun s => (s.rets.length, decide ((s.handles 0).pc = RPc.idle)))
     = some (0, true) := by decide
 
+/-! ### Multi-pack indices: a rewritten multi-pack index moves to another slot
+
+A multi-pack index is one installation (`Bundle.multi = true`, its index loaded when it is installed) that
+stands for several packs; the protocol core keeps ONE load state for the packs of an installation (which
+pack of the multi-pack index a lookup wants does not matter for whose pack it gets: `load_pack` takes the
+pack number from the id the lookup found, in the installation the slot holds). When the file changes
+(`git multi-pack-index write`, `git repack --write-midx`) `consolidate_with_disk_state` installs the new
+file in ANOTHER slot (`consSetGen k'`, `consSetFiles k' file' true`), publishes, and clears the old slot
+(`consClearGen k`, `consClearFiles k`) — the `index_paths_to_add.iter().any(|t| t.2.is_some())` half of the
+"needs a new generation" condition. All theorems above quantify over every such schedule; the following
+ones spell the case out. -/
+
+/-- a multi-pack index (file 20) in slot 0, two handles; handle 0 has it in its snapshot, no pack loaded -/
+def midxSetup : List Ev :=
+  [Ev.envAdd 20 [1, 2, 3, 4], Ev.newHandle, Ev.newHandle,
+   Ev.consBegin 1, Ev.consSetGen 0, Ev.consSetFiles 0 20 true, Ev.consPublish [0] false, Ev.consEnd,
+   Ev.collBegin 0, Ev.collSlot 0, Ev.collEnd 0]
+
+/-- ONLY the multi-pack index is rewritten (file 21 replaces file 20; no other index the store knows goes
+away): it is installed in slot 1, slot 0 is cleared — `bump` says whether a new generation is published -/
+def midxRewrite (bump : Bool) : List Ev :=
+  [Ev.envAdd 21 [1, 2, 3, 4, 5], Ev.envRemove 20,
+   Ev.consBegin 1, Ev.consSetGen 1, Ev.consSetFiles 1 21 true, Ev.consPublish [1] bump,
+   Ev.consClearGen 0, Ev.consClearFiles 0, Ev.consEnd]
+
+/-- rewritten once more: file 22 wraps around into slot 0 -/
+def midxRewriteAgain (bump : Bool) : List Ev :=
+  [Ev.envAdd 22 [1, 2, 3, 4, 5, 6], Ev.envRemove 21,
+   Ev.consBegin 1, Ev.consSetGen 0, Ev.consSetFiles 0 22 true, Ev.consPublish [0] bump,
+   Ev.consClearGen 1, Ev.consClearFiles 1, Ev.consEnd]
+
+/-- Whatever the reason a slot is cleared for — the index file is gone, or it is the old place of a
+multi-pack index that was moved — in every reachable state of the repaired code the clearing stores the
+NEXT generation into the slot, that generation is the published one, and the slot is not part of the
+published slot map index: every marker taken before this consolidation is rejected by `load_pack`. -/
+theorem cleared_slot_gets_new_generation (n : Nat) (sched : List Ev) (s s' : Sys) (k : Nat)
+    (hrun : run (Sys.init Cfg.fixed n) sched = some s) (hstep : step s (Ev.consClearGen k) = some s') :
+    ∃ c, s.cons = some c ∧ (s'.slots k).gen = c.G + 1 ∧ s'.pubGen = c.G + 1 ∧ k ∉ s'.pubSlots := by
+  have inv := (run_inv sched (inv_init n) hrun).iS
+  obtain ⟨c, hc, hpub, _, hk, hbump, rfl⟩ := inv_consClearGen hstep
+  have hng : c.newGen = c.G + 1 := hbump (by rw [inv.cfg]; rfl)
+  refine ⟨c, hc, ?_, ?_, hk⟩
+  · show ((s.setSlot k { s.slots k with gen := c.newGen, wlock := true }).slots k).gen = _
+    simp [hng]
+  · show s.pubGen = _
+    rw [← ((inv.consG c hc).2 hpub), hng]
+
+/-- The repaired code cannot do what the seeded change does: after publishing the moved multi-pack index
+WITHOUT a new generation, clearing its old slot is not a step. -/
+theorem midx_move_without_new_generation_impossible :
+    (run (Sys.init Cfg.fixed 2) (midxSetup ++ (midxRewrite false).take 7)).isNone = true
+    ∧ (run (Sys.init Cfg.fixed 2) (midxSetup ++ (midxRewrite false).take 6)).isSome = true := by
+  refine ⟨by decide, by decide⟩
+
+/-- Without the generation change for a moved multi-pack index (`bumpOnClear = false` admits it) the
+stale handle — it has the multi-pack index in its snapshot, the pack not loaded — passes both generation
+checks on the emptied slot and hits `unreachable!()` (harness: corpus (g), `find` of handle 0). -/
+theorem midx_move_needs_new_generation_panic :
+    (run (Sys.init { bumpOnClear := false, recheck := true } 2)
+      (midxSetup ++ midxRewrite false ++ [Ev.lp1 0 0, Ev.lp2 0, Ev.lp3 0, Ev.lp4 0])).map (·.panicked)
+    = some true := by decide
+
+/-- …and once the next rewrite has put another multi-pack index into that slot, it is handed a pack of
+file 22 for an object it found in file 20 (harness: corpus (g), `find` of handle 2: another object's
+content). -/
+theorem midx_move_needs_new_generation_wrong_content :
+    (run (Sys.init { bumpOnClear := false, recheck := true } 2)
+      (midxSetup ++ midxRewrite false ++ midxRewriteAgain false ++ [Ev.lp1 0 0, Ev.lp2 0, Ev.lp3 0, Ev.lp5 0])).map
+      (fun s => s.rets.map fun r => (r.want.file, r.got.file))
+    = some [(20, 22)] := by decide
+
+/-- with the new generation (the repaired code) the same history makes `load_pack` give up at once: the
+lookup refreshes its snapshot -/
+example :
+    (run (Sys.init Cfg.fixed 2)
+      (midxSetup ++ midxRewrite true ++ midxRewriteAgain true ++ [Ev.lp1 0 0])).map
+      (fun s => (s.panicked, s.rets.length, decide ((s.handles 0).pc = RPc.idle)))
+    = some (false, 0, true) := by decide
+
 /-! ### Liveness on the scenario model (stated, not proved) -/
 
 /-- The liveness half for interruption-free runs of the modelled control flow: after any scenario
@@ -341,6 +420,32 @@ theorem found_if_present_quiescent_live (pre post : List Live.Ev) (h o F : Nat) 
     | exact absurd rfl hnnf
     | cases hd
 
+/-- The bound for a directory that changes finitely often, as one theorem. For EVERY schedule from a
+reachable state — directory changes, new handles and new lookups mixed with the steps of the lookups in any
+way — the number of lookup steps is at most the progress measure at the start plus, for each of the
+(finitely many) events that are not lookup steps, the progress measure right after that event
+(`Live.changeBudget`): between two changes the lookups can only work off what the last change left. -/
+theorem lookup_steps_bounded_finite_changes (pre sched : List Live.Ev) (s s' : Live.S)
+    (hpre : Live.run (Live.S.init Live.Cfg.fixed) pre = some s) (hrun : Live.run s sched = some s') :
+    Live.countLookup sched ≤ Live.T s + Live.changeBudget s sched := by
+  have := run_T_changes (reachable_inv hpre) sched hrun
+  omega
+
+/-- Corollary: if the progress measure is at most `B` at the start and right after every change, a schedule
+with `N` changes (directory changes, new handles, new lookups) has at most `(N + 1) * B` lookup steps —
+the retry loops cannot spin: every round is paid for by a change of the directory or by a load. -/
+theorem lookup_steps_bounded_by_changes (pre sched : List Live.Ev) (s s' : Live.S) (B : Nat)
+    (hpre : Live.run (Live.S.init Live.Cfg.fixed) pre = some s) (hrun : Live.run s sched = some s')
+    (h0 : Live.T s ≤ B)
+    (hB : ∀ (p : List Live.Ev) (e : Live.Ev) (q : List Live.Ev) (s1 : Live.S), sched = p ++ e :: q →
+      e.isLookup = false → Live.run s (p ++ [e]) = some s1 → Live.T s1 ≤ B) :
+    Live.countLookup sched ≤ (Live.countChanges sched + 1) * B := by
+  have h1 := run_T_changes (reachable_inv hpre) sched hrun
+  have h2 := changeBudget_le B sched hrun hB
+  rw [Nat.add_mul, Nat.one_mul]
+  omega
+
 end Liveness
+
 
 end GixModel.Props.C12
